@@ -206,7 +206,8 @@ class Filterbank(ABC):
         **plan_kwargs : dict
             Keyword arguments for :func:`read_plan`.
         """
-        bag = ChannelStats(self.header.nchans, self.header.nsamples)
+        nsamps_bag = (self.header.nsamples - start) if nsamps is None else nsamps
+        bag = ChannelStats(self.header.nchans, nsamps_bag)
         for _, ii, data in self.read_plan(
             gulp=gulp,
             start=start,
@@ -238,7 +239,8 @@ class Filterbank(ABC):
         **plan_kwargs : dict
             Keyword arguments for :func:`read_plan`.
         """
-        bag = ChannelStats(self.header.nchans, self.header.nsamples)
+        nsamps_bag = (self.header.nsamples - start) if nsamps is None else nsamps
+        bag = ChannelStats(self.header.nchans, nsamps_bag)
         for _, ii, data in self.read_plan(
             gulp=gulp,
             start=start,
@@ -282,7 +284,17 @@ class Filterbank(ABC):
             **plan_kwargs,
         ):
             kernels.extract_tim(data, tim_ar, self.header.nchans, nsamps_r, ii * gulp)
-        return TimeSeries(tim_ar, self.header.new_header({"nchans": 1, "dm": 0}))
+        return TimeSeries(
+            tim_ar,
+            self.header.new_header(
+                {
+                    "nchans": 1,
+                    "dm": 0,
+                    "nsamples": tim_len,
+                    "tstart": self.header.mjd_after_nsamps(start),
+                },
+            ),
+        )
 
     def bandpass(
         self,
@@ -363,7 +375,8 @@ class Filterbank(ABC):
         chan_delays = self.header.get_dmdelays(dm)
         max_delay = int(chan_delays.max())
         gulp = max(2 * max_delay, gulp)
-        tim_len = self.header.nsamples - max_delay
+        tim_len = (self.header.nsamples - start) if nsamps is None else nsamps
+        tim_len -= max_delay
         tim_ar = np.zeros(tim_len, dtype=np.float32)
         for nsamps_r, ii, data in self.read_plan(
             gulp=gulp,
@@ -383,7 +396,14 @@ class Filterbank(ABC):
             )
         return TimeSeries(
             tim_ar,
-            self.header.new_header({"nchans": 1, "dm": dm, "nsamples": tim_len}),
+            self.header.new_header(
+                {
+                    "nchans": 1,
+                    "dm": dm,
+                    "nsamples": tim_len,
+                    "tstart": self.header.mjd_after_nsamps(start),
+                },
+            ),
         )
 
     def read_chan(
@@ -422,7 +442,8 @@ class Filterbank(ABC):
         if ichan >= self.header.nchans or ichan < 0:
             msg = f"Selected channel {ichan} out of range."
             raise ValueError(msg)
-        tim_ar = np.empty(self.header.nsamples, dtype=np.float32)
+        tim_len = (self.header.nsamples - start) if nsamps is None else nsamps
+        tim_ar = np.empty(tim_len, dtype=np.float32)
         for nsamps_r, ii, data in self.read_plan(
             gulp=gulp,
             start=start,
@@ -430,8 +451,18 @@ class Filterbank(ABC):
             **plan_kwargs,
         ):
             data_2d = data.reshape(nsamps_r, self.header.nchans)
-            tim_ar[ii * gulp : (ii + 1) * gulp] = data_2d[:, ichan]
-        return TimeSeries(tim_ar, self.header.new_header({"dm": 0, "nchans": 1}))
+            tim_ar[ii * gulp : ii * gulp + nsamps_r] = data_2d[:, ichan]
+        return TimeSeries(
+            tim_ar,
+            self.header.new_header(
+                {
+                    "dm": 0,
+                    "nchans": 1,
+                    "nsamples": tim_len,
+                    "tstart": self.header.mjd_after_nsamps(start),
+                },
+            ),
+        )
 
     def invert_freq(
         self,
